@@ -7,3 +7,5 @@ def run(ctx, rep):
     driver.rule_expert_table(mod, rep, "C12")
     driver.rule_expert_order_cond(mod, rep)
     cond.rule_gscon_table(mod, rep)
+    from ..rules import misc
+    misc.rule_min_identity(mod, rep, which=('growth',))
